@@ -21,7 +21,7 @@ def build_case(rng, tier):
     m = {}
     writes = []
     fixed = rng.choice([None, None, 2, 3])
-    for _ in range(rng.randint(1, 7 if tier == "quick" else 14)):
+    for _ in range(rng.randint(0 if rng.random() < 0.1 else 1, 7 if tier == "quick" else 14)):
         k = BX.gen_key(rng, fixed)
         v = BX.gen_value(rng)
         if not BX.prefix_related(k, m):
@@ -33,6 +33,8 @@ def build_case(rng, tier):
 def alter(node, rng):
     if len(node) <= 1:
         return node + b"\x01"
+    if rng.random() < 0.15:
+        return bytes([node[0] ^ rng.choice([1, 2, 3, 0x80])]) + node[1:]     # another / an unknown node type byte
     i = rng.randrange(1, len(node))
     return node[:i] + bytes([node[i] ^ 1]) + node[i + 1:]
 
